@@ -300,6 +300,18 @@ func ZZReplies() {
 	if text {
 		firstKinds, laterKinds = textFirst, textLater
 	}
+	getfault := rt.Param("getfault", 0) == 1
+	if getfault {
+		// the first request is a multi-key get during which one backend call fails with an
+		// application error (busy): an error reply, the connection stays; the single-key get that
+		// follows must be answered exactly as usual -- values and exactly one terminator
+		firstKinds, laterKinds = []int{wire.KGetQGet, wire.KGetQ2Noop}, []int{wire.KGetQNoop, wire.KGet}
+		if text {
+			firstKinds, laterKinds = []int{wire.TGet2, wire.TGet3}, []int{wire.TGet1}
+		}
+		w.h1.FailAt = rt.Choice("fault.at", 2) // a 2-key get makes at least two L1 calls: the fault always falls into the first request
+		w.h1.FailErr = common.ErrBusy
+	}
 	var its []*wire.Intent
 	var stream []byte
 	for n := 0; n < npipe; n++ {
@@ -345,6 +357,29 @@ func ZZReplies() {
 	rt.Assert("c08-connection-closed-once", cl.Closed == 1 && closers[0].N == 1 && closers[1].N == 1)
 	rt.Assert("c08-all-requests-consumed", cl.Consumed() == len(stream))
 
+	if getfault {
+		g := expectIntent(its[len(its)-1], w.ref, w.now, text, twoTier)
+		n := len(g.units)
+		if text {
+			rs, ok := wire.DecodeText(cl.Out)
+			rt.Assert("c08-text-replies-well-formed", ok)
+			rt.Assert("c08-request-after-error-reply-fully-answered", ok && len(rs) >= n)
+			if ok && len(rs) >= n {
+				sub := rs[len(rs)-n:]
+				rt.Assert("c08-request-after-error-reply-answered-as-usual", matchGroup(n, g.free, func(i, j int) bool { return textMatch(sub[i], g.units[j]) }))
+			}
+		} else {
+			fs, ok := wire.DecodeBinary(cl.Out)
+			rt.Assert("c08-binary-frames-well-formed", ok)
+			rt.Assert("c08-request-after-error-reply-fully-answered", ok && len(fs) >= n)
+			if ok && len(fs) >= n {
+				sub := fs[len(fs)-n:]
+				rt.Assert("c08-request-after-error-reply-answered-as-usual", matchGroup(n, g.free, func(i, j int) bool { return binMatch(sub[i], g.units[j]) }))
+			}
+		}
+		rt.Reach("replies-checked")
+		return
+	}
 	// expected reply units, in request order
 	var groups []expGroup
 	total := 0
